@@ -74,6 +74,14 @@ impl C05 {
             rats.push(rat(-355, d));
             rats.push(rat(1_000_000_007, d));
         }
+        // long recurring periods x integer parts on both sides of every digit-count boundary
+        // (the digit-count estimate is an upper bound that is off by one for part of each decade)
+        for d in [17i64, 19, 23, 97, 3937] {
+            for m in [7i64, 8, 9, 10, 63, 64, 99, 100, 511, 512, 999, 1000, 1023, 1024] {
+                rats.push(rat(d * m + 1, d));
+                rats.push(rat(-(d * m + 1), d));
+            }
+        }
         // thousands of bits
         let big = (BigInt::one() << 4096usize) + BigInt::one();
         rats.push(Rat::from_integer(big.clone()));
